@@ -92,6 +92,8 @@ class Event:
         sim = cur_sim()
         if sim:
             sim.wake_q(self._q)
+            if sim.me() is not None:
+                sim.yield_('event.set')
 
     def clear(self):
         self._flag = False
@@ -271,6 +273,7 @@ class SimQueue:
         sim.yield_('q.put')
         self._items.append(item)
         sim.wake_q(self._q)
+        sim.yield_('q.put-done')
 
     def put_nowait(self, item):
         self.put(item, block=False)
